@@ -126,14 +126,20 @@ class MetricReceiver(CarbonServerProtocol, TimeoutMixin):
       log.listener("%s connection with %s established" % (
         self.__class__.__name__, self.peerName))
 
-    if state.metricReceiversPaused:
-      self.pauseReceiving()
-
-    state.connectedMetricReceiverProtocols.add(self)
-    checkIfAcceptingConnections()
+    # Subscribe before looking at the paused flag: the resume event is fired from
+    # the writer thread and must not slip in between the check and the subscription.
     if settings.USE_FLOW_CONTROL:
       events.pauseReceivingMetrics.addHandler(self.pauseReceiving)
       events.resumeReceivingMetrics.addHandler(self.resumeReceiving)
+
+    if state.metricReceiversPaused:
+      self.pauseReceiving()
+      if not state.metricReceiversPaused:
+        # receivers were resumed while we were pausing this one
+        self.resumeReceiving()
+
+    state.connectedMetricReceiverProtocols.add(self)
+    checkIfAcceptingConnections()
 
   def getPeerName(self):
     if hasattr(self.transport, 'getPeer'):
